@@ -2,8 +2,8 @@
 (***************************************************************************)
 (* Record validation for C06: each line of TRACE_FILE is one observation   *)
 (* of the real Application:                                                *)
-(*  {tid, table:[{id, patv:[{k,v}], ms:[..], beh}], order:[ids of          *)
-(*   app.routes], hist:[{id, idx}], q:{pathv:[..], method},                *)
+(*  {tid, table:[{id, patv:[{k,v}], ms:[..], beh, trail}], order:[ids of   *)
+(*   app.routes], hist:[{id, idx}], q:{pathv:[..], method, trail},         *)
 (*   obs:{status, by, exec:[ids], allow:[..], has_allow, head}}            *)
 (* TLC accepts the record iff the observation is what Answer() says for    *)
 (* that table and request, and app.routes is what the add() history gives. *)
@@ -17,8 +17,8 @@ tvars == <<vars, tid>>
 SetOf(s) == {s[k] : k \in DOMAIN s}
 TableOf(r) == [k \in DOMAIN r.table |->
                  [id |-> r.table[k].id, patv |-> r.table[k].patv, msv |-> SetOf(r.table[k].ms),
-                  beh |-> r.table[k].beh]]
-ReqOf(r) == [pathv |-> r.q.pathv, method |-> r.q.method]
+                  beh |-> r.table[k].beh, trail |-> r.table[k].trail]]
+ReqOf(r) == [pathv |-> r.q.pathv, method |-> r.q.method, trail |-> r.q.trail]
 
 WithHead(S) == IF "GET" \in S THEN S \cup {"HEAD"} ELSE S
 
